@@ -860,5 +860,6 @@ func TestVerifC44(t *testing.T) {
 		t0 = time.Now()
 		c44SeqSweep(c, w, nB2)
 		fmt.Printf("INFO property=C44 part B2 took %.1fs\n", time.Since(t0).Seconds())
+		c44sSchedPart(c)
 	})
 }
